@@ -294,6 +294,21 @@ def gen_case(rng, i, dbinfos):
             if rng.random() < 0.65:
                 cur = redefine(rng, cur)
                 st["redef"] = cur
+    # drivers and multi-step temperature: a stage is run by USE/SAVE/END or by RUN_CELLS (cell 1 = every reactant numbered 1);
+    # temperature steps alternate so that a phase dissolves in one step and is supersaturated in the next
+    for st in stages:
+        if rng.random() < 0.3:
+            st["run_cells"] = {"time_step": rng.choice([None, 0.0, 3600.0]), "start_time": rng.choice([None, 0.0, 100.0])}
+            st.pop("newrun", None) if rng.random() < 0.5 else None
+        if rng.random() < 0.3:
+            lo, hi = sorted([round(rng.uniform(0, 40), 2), round(rng.uniform(50, 100), 2)])
+            seq = [lo, hi, lo, hi] if rng.random() < 0.5 else [hi, lo, hi, lo]
+            st["temps"] = seq[:rng.randint(2, 4)]
+            st.pop("temp", None)
+            if "reaction" in st:
+                st["reaction"]["amounts"] = st["reaction"]["amounts"][:len(st["temps"])]
+            if rng.random() < 0.6:
+                st["incremental"] = True
     # solid-solution histories: redefinition ideal <-> non-ideal with the same phases, SOLID_SOLUTIONS_MODIFY that makes a
     # non-ideal solid solution ideal (a0 = a1 = 0), temperature excursions that return to the starting temperature
     if "ss" in spec and len(spec["ss"]["comps"]) == 2 and "ss2" not in spec:
@@ -468,13 +483,18 @@ def render(spec):
             L.append("#RUNSPLIT")      # the harness starts a new RunString call here (same instance)
         if st.get("ss_modify_ideal"):
             L += ["SOLID_SOLUTIONS_MODIFY 1", f" -solid_solution {spec['ss']['name']}", "  -a0 0", "  -a1 0", "  -ag0 0", "  -ag1 0", "END"]
-        L.append("USE solution 1")
-        for s in saves:
-            if s == "equilibrium_phases" and "redef" in st:
-                continue
-            if s == "solid_solutions" and "ss_redef" in st:
-                continue
-            L.append(f"USE {s} 1")
+        rc = st.get("run_cells")
+        if rc:
+            # RUN_CELLS takes every reactant numbered 1: what an earlier stage defined must not take part unasked
+            L += ["DELETE", " -reaction 1", " -temperature 1", "END"]
+        else:
+            L.append("USE solution 1")
+            for s in saves:
+                if s == "equilibrium_phases" and "redef" in st:
+                    continue
+                if s == "solid_solutions" and "ss_redef" in st:
+                    continue
+                L.append(f"USE {s} 1")
         if "redef" in st:
             L.append("EQUILIBRIUM_PHASES 1")
             L += phase_lines({"phases": st["redef"]})
@@ -484,14 +504,28 @@ def render(spec):
             L.append("REACTION 1")
             L.append(f" {st['reaction']['formula']} 1")
             L.append(" " + " ".join(fmt(a) for a in st["reaction"]["amounts"]) + " moles")
+        if "reaction" in st or "temps" in st or rc:
             L.append("INCREMENTAL_REACTIONS " + ("true" if st.get("incremental") else "false"))
-        if "temp" in st:
+        if "temps" in st:
+            L.append("REACTION_TEMPERATURE 1")
+            L.append(" " + " ".join(fmt(t) for t in st["temps"]))
+        elif "temp" in st:
             L.append("REACTION_TEMPERATURE 1")
             L.append(f" {fmt(st['temp'])}")
-        L.append("SAVE solution 1")
-        for s in saves:
-            L.append(f"SAVE {s} 1")
-        L.append("END")
+        if rc:
+            L.append("END")
+            L.append("RUN_CELLS")
+            L.append(" -cells 1")
+            if rc.get("time_step") is not None:
+                L.append(f" -time_step {fmt(rc['time_step'])}")
+            if rc.get("start_time") is not None:
+                L.append(f" -start_time {fmt(rc['start_time'])}")
+            L.append("END")
+        else:
+            L.append("SAVE solution 1")
+            for s in saves:
+                L.append(f"SAVE {s} 1")
+            L.append("END")
         # a stage's REACTION / REACTION_TEMPERATURE must not leak into the next stage
     L += ["DUMP", " -equilibrium_phases 1", " -exchange 1", " -surface 1", " -solid_solutions 1", "END"]
     return "\n".join(L) + "\n"
@@ -517,6 +551,9 @@ def shrink_candidates(spec):
                 if fld in st:
                     mod(lambda s, k=k, fld=fld: s["stages"][k].pop(fld))
         for k, st in enumerate(spec["stages"]):
+            for fld in ("run_cells", "temps"):
+                if fld in st:
+                    mod(lambda s, k=k, fld=fld: s["stages"][k].pop(fld))
             if "temp" in st and "reaction" in st:
                 mod(lambda s, k=k: s["stages"][k].pop("temp"))
             if "reaction" in st and len(st["reaction"]["amounts"]) > 1:
